@@ -762,6 +762,25 @@ def alias(progs):
                                any(x.get('k') == 'ref' and x.get('dk') == 'local' for x in walk(cnd)):
                                 if any(A.cshort(x) == 'begin' for x in A.calls(cnd)) and any(A.cshort(x) == 'size' for x in A.calls(cnd)):
                                     nei.add(v['did'])
+            # the same computed with an if: `idx = -1; if (&v in [begin, begin + size)) idx = &v - begin;`
+            def _minus1(x):
+                x = A.strip(x or {})
+                return x.get('cv') == -1 or x.get('v') == -1 or (x.get('k') == 'un' and x.get('op') == '-' and A.strip(x.get('sub') or {}).get('v') == 1)
+
+            def _inrange(cnd):
+                return any(A.cshort(x) == 'begin' for x in A.calls(cnd)) and any(A.cshort(x) == 'size' for x in A.calls(cnd)) and \
+                    (any(x.get('k') == 'ref' and x.get('dk') == 'param' and x.get('idx') in tracked for x in walk(cnd)) or
+                     any(x.get('k') == 'ref' and x.get('dk') == 'local' for x in walk(cnd)))
+            Pn = None
+            for did, (ini, ty) in A.local_inits(body).items():
+                if did in nei or ini is None or not _minus1(ini):
+                    continue
+                asg = [n for n in walk(body) if n.get('k') == 'bin' and n.get('op') == '=' and A.strip(n.get('lhs')).get('k') == 'ref' and A.strip(n['lhs']).get('did') == did]
+                if not asg:
+                    continue
+                Pn = Pn or A.Parents(body)
+                if all(_minus1(a.get('rhs')) or any(t and _inrange(c) for c, t in Pn.guards(a)) for a in asg):
+                    nei.add(did)
             cl.not_elem_idx = nei
             for n in walk(body):
                 if n.get('k') == 'decl':
